@@ -38,6 +38,8 @@ fn main() {
         "C01" => drive(props::c01::C01, mode, file),
         "C04" => drive(props::c04::C04, mode, file),
         "C05" => drive(props::c05::C05, mode, file),
+        "C11" => drive(props::c11::C11, mode, file),
+        "C12" => drive(props::c11::C12, mode, file),
         other => {
             eprintln!("unknown property {}", other);
             2
